@@ -29,6 +29,7 @@ func C06(c *Ctx) {
 	r.Rule("R06.14", "a receipt is judged by the stored record, not by what its sender writes into it: setTimeoutList skips an IBTP because of its Group field (group members are listed by the transaction manager) only inside the request branch; whether a receipt belongs to a group is decided by the record lookup of the receipt branch (single record under TxInfoKey, else the global id). A receipt of a one-to-one request that carries a Group is accepted by the transaction manager - which ignores the field - and would otherwise leave its request listed: the finished transaction is reported as timed out and rolled back at H+T.")
 	r.Rule("R06.15", "the batch answer keeps only requests out of the timeout bookkeeping: filterValidTx files a transaction as invalid for the answer \"batch_ibtp\" (a request to an unordered destination is not listed for a timeout) only when the transaction is a request; a receipt's answer says nothing about how its request was treated - the two sides of checkIBTP take the flag from different services - and an accepted receipt always takes its request out of the list.")
 	r.Rule("R06.13", "T = 0 never times out: where the transaction manager computes a deadline GetCurrentHeight() + timeout and stores it as the Height of a record under which an id is listed (the group record handed to addToTimeoutList; the transaction record, when the executor lists requests under the recorded height), the function tests the timeout against 0 and on the edge on which it is 0 the recorded Height is MaxUint64 (never the sum: H + 0 = H would list the request for the block that accepted it, and it would be rolled back at once).")
+	c.c06ExpiryComplete()
 	r.NotDecided = append(r.NotDecided, "'exactly once in that block's notifications' over restarts beyond 'state is ledger-borne'; numeric adequacy of the overflow guard")
 	// "the same holds for a one-to-many group as a whole": the group leaves the timeout list when - and only when -
 	// it ends (decided by the C05 rule set)
